@@ -119,8 +119,12 @@ def defaultTol : Rat := Generated.eqTolerance
 def small (tol : Rat) (x : GQ) : Bool := x.normSq < tol * tol
 /-- `abs(x) > EQ_TOLERANCE` -/
 def big (tol : Rat) (x : GQ) : Bool := x.normSq > tol * tol
-/-- `abs(numpy.imag(a)) < EQ_TOLERANCE and abs(numpy.imag(b)) < EQ_TOLERANCE` -/
-def realish (tol : Rat) (a b : GQ) : Bool := a.im * a.im < tol * tol && b.im * b.im < tol * tol
+/-- `abs(numpy.imag(phase)) < EQ_TOLERANCE` for `phase = (a/|a|) * conj(b/|b|)` (and `phase = 1.0` in the two
+branches where `a` or `b` is negligible): `Im(a conj b)^2 < tol^2 |a|^2 |b|^2`, stated without square roots.
+(Before the repair 7be94873 of /repo the test was on the absolute size of `Im a`, `Im b`.) -/
+def realish (tol : Rat) (a b : GQ) : Bool :=
+  small tol a || small tol b ||
+    (let w := a * b.conj; w.im * w.im < tol * tol * (a.normSq * b.normSq))
 
 def irr {α} : Except String α := .error "irrational"
 
